@@ -364,4 +364,27 @@ example : ∀ l ∈ [(⟨"REPEAT 1".toList, 1⟩ : PreLine), ⟨"ELSE".toList, 2
   · exact oneLevel_of_head ⟨⟨"ELSE".toList, 2⟩, "ELSE".toList, none⟩ (else_head_runs 2).1 (else_head_runs 2).2
   · exact oneLevel_repeat1 3
 
+/-- … and through `Compiler.compile`: a source that is `k` one-level block lines nested around stack-free code ends in StackOverflowError
+    under stack limit `L ≥ 1` iff `L ≤ k` -/
+theorem C14_compile_nest_exact_general (opts : Opts) (hlim : 1 ≤ opts.stackLimit) (fs : FS) (file : Option Path) (src : Source)
+    (ls : List PreLine) (leaf : List Node) (hl : leaf ≠ []) (hleaf : ∀ d ctx st, (exec d leaf ctx st).isSO = false)
+    (hall : ∀ l ∈ ls, OneLevel l) (hprep : prepare src = .ok (nestL ls leaf)) :
+    (∃ e, compile opts fs file src = .err e ∧ e.k = .stackOverflow) ↔ opts.stackLimit ≤ ls.length := by
+  have hex := C14_nest_exact_general leaf hl hleaf ls hall (opts.stackLimit - 1)
+    { opts := opts.flags, fs := fs, frames := [], file := file } { env := initEnv } ifFlag_initial
+  have hiff : (opts.stackLimit - 1 < ls.length) ↔ opts.stackLimit ≤ ls.length := by omega
+  rw [← hiff, ← hex]
+  unfold compile
+  simp only [hprep]
+  cases hr : exec (opts.stackLimit - 1) (nestL ls leaf) { opts := opts.flags, fs := fs, frames := [], file := file } { env := initEnv } with
+  | ok r => simp [R.isSO]
+  | err e =>
+    simp only [R.isSO, beq_iff_eq]
+    constructor
+    · rintro ⟨e', he', hk⟩
+      cases he'; exact hk
+    · intro hk; exact ⟨e, rfl, hk⟩
+  | crash x => simp [R.isSO]
+  | oom w => simp [R.isSO]
+
 end Duckling.Props.C14
